@@ -54,7 +54,7 @@ func ParseHeader(val string) (Header, error) {
 	} else if strings.HasPrefix(val, "%") {
 		h.Name = val[1:]
 		h.Action = RenameCase
-	} else if strings.HasSuffix(val, ";") {
+	} else if strings.HasSuffix(val, ";") && !strings.Contains(val, ":") {
 		h.Name = val[0 : len(val)-1]
 		h.Action = Empty
 	} else {
